@@ -38,6 +38,18 @@ func (kk KeyKind[K]) ord(k K) int {
 	return kk.Un(k)
 }
 
+// BytesKeys are []byte keys (a key type that == cannot compare: only the user's order may be applied to it).
+var BytesKeys = KeyKind[[]byte]{Name: "bytes",
+	Mk: func(i int) []byte { return []byte(fmt.Sprintf("k%07d", i)) },
+	Un: func(k []byte) int {
+		if len(k) < 2 {
+			return 0
+		}
+		var n int
+		fmt.Sscanf(string(k[1:]), "%d", &n)
+		return n
+	}}
+
 // PtrKeys are pointer keys ordered by what they point to; every Mk returns a fresh pointer.
 var PtrKeys = KeyKind[*int]{Name: "ptr",
 	Mk: func(i int) *int { v := i; return &v },
